@@ -11,6 +11,7 @@ import tempfile
 PROPERTY = "C32"
 LEVEL = "exploration"
 ENGINE = "enum"
+LEVEL_NOTE = "exploration combined with a single-fault sweep (E3 audit-hook injector): counters fault_points / faulted_sessions / faults_fired report the sweep"
 TECHNIQUE = (
     "exhaustive enumeration of helper request shapes, each issued by the real bash __ebd_ipc_cmd over pipes to the real "
     "EbuildProcessor.generic_handler + IpcCommand classes, plus single-errno fault injection (audit hook) on every "
